@@ -6,8 +6,15 @@ Streams (DESIGN 3.2):
   card       Shelxfile.read_string with SYMM lines -> symmcards          vs  model `symmCard` + `parseComp`, spec `denote` (card_components)
   roundtrip  SymmetryElement(op.to_shelxl().split(',')) against op       vs  model `toShelxl`/`parseComp`              (print_parse_id)
   eq         a == b                                                      vs  model `eqModel`, spec `LatticeEq`         (eq_iff_mod_lattice)
-Observed: matrix entries, translations (1e-12 against the exact rational), the truth value of `==`.
-Not observed: printed text as such, exception classes and messages, hashes, `centric`, `ID`.
+  hist       histories on a pool of operator OBJECTS, however they were made: parsed (also with centric=True), read off
+             `symmcards` of a file with any LATT, derived with apply_latt_symm() from any object (also from derived ones),
+             re-parsed from their own text, with printing/comparing (to_shelxl, repr, str, to_cif, ==) between any two
+             steps. After every step every object must still be the operator it has to be; at the end every object must
+             survive print -> parse and every pair must compare as the lattice rule says (==, != , both directions).
+                                                                          vs  model `runModel`, spec `specRun`/`LatticeEq`
+                                                                              (history_refines, history_roundtrip)
+Observed: matrix entries, translations (1e-12 against the exact rational), the truth value of `==` / `!=`.
+Not observed: printed text as such, exception classes and messages, hashes, `centric`, `ID`, `symms`.
 """
 import itertools
 from fractions import Fraction
@@ -227,6 +234,8 @@ def evaluate(ctx, cases, stream=None):
         eval_roundtrip(ctx, by['roundtrip'])
     if 'eq' in by:
         eval_eq(ctx, by['eq'])
+    if 'hist' in by:
+        eval_hist(ctx, by['hist'])
 
 
 def driver_components(ctx, comps):
@@ -382,6 +391,10 @@ def eval_roundtrip(ctx, cases):
                      dict(payload, actual=dict(printed=printed, m=m2, t=t2, eq=eq)))
             continue
         pieces = printed.split(',')
+        if set(printed) - MODEL_ALPHABET:
+            # str(float) of |t| < 1e-4 is in exponent notation ('-8.4e-05-X'): outside the alphabet on which float() is
+            # modelled; the implementation's own round trip has been checked above
+            continue
         i_parse = len(reqs)
         reqs += [dict(p='C10', op='parse', s=s) for s in pieces]
         i_print = None
@@ -473,6 +486,324 @@ def eval_eq(ctx, cases):
 
 
 # ------------------------------------------------------------------------------------------------
+# histories on operator objects (stream `hist`)
+
+OBSERVATIONS = ('to_shelxl', 'repr', 'str', 'to_cif', 'eq')
+MODEL_ALPHABET = set('0123456789./+-XYZxyz, ')
+EQ_DEN_LIMIT = 10 ** 8      # eq_iff_mod_lattice: translations on a grid 1/N with tol * N <= 1 (tol = 1e-9)
+
+
+def snap(x):
+    """the exact rational that a float read off a library-made operator stands for (None: not recognisable)"""
+    try:
+        q = Fraction(float(x)).limit_denominator(10 ** 6)
+    except (TypeError, ValueError, OverflowError):
+        return None
+    return q if abs(float(q) - float(x)) < 1e-13 else None
+
+
+def observe_exact(op):
+    """matrix entries (must be -1, 0, 1) and translations as exact rationals, or None"""
+    m, t = observe_op(op)
+    try:
+        mi = [[int(v) for v in row] for row in m]
+        if any(float(v) != w or w not in (-1, 0, 1) for row, ri in zip(m, mi) for v, w in zip(row, ri)):
+            return None
+    except (TypeError, ValueError):
+        return None
+    ts = [snap(x) for x in t]
+    if any(x is None for x in ts):
+        return None
+    return mi, ts
+
+
+def symm_file_text(latt, lines):
+    return '\n'.join(['TITL c10', 'CELL 0.71073 10.0 11.0 12.0 90 95 90', 'ZERR 4 0.001 0.001 0.001 0 0.01 0', f'LATT {latt}'] +
+                     list(lines) + ['SFAC C H', 'UNIT 4 4', 'FVAR 1.0', 'C1 1 0.1 0.2 0.3 11.0 0.03', 'HKLF 4', 'END']) + '\n'
+
+
+def observe_fast(op):
+    """observe_op without the per-entry guards (same values; falls back to the guarded form when anything is odd)"""
+    try:
+        m, t = op.matrix, op.trans
+        return [[m[i, j] for j in range(3)] for i in range(3)], [t[0], t[1], t[2]]
+    except Exception:  # noqa
+        return observe_op(op)
+
+
+def safe(f):
+    try:
+        return f()
+    except Exception as e:  # noqa
+        return f'raise {type(e).__name__}'
+
+
+def short_prov(p):
+    """provenance of the source inside the provenance of a derived object, kept to one level"""
+    return p if '(' not in p else p[:p.index('(')] + '(..)'
+
+
+def run_history(case):
+    """executes the calls of one history on the real objects; everything that is compared later is recorded as plain data"""
+    from shelxfile import Shelxfile
+    from shelxfile.misc.dsrmath import SymmetryElement
+    pool, prov, printed, prog, text, trouble, timeline, kinds = [], [], [], [], [], [], [], []
+
+    def add(obj, how, request, line):
+        text.append(f'o{len(pool)} = {line}')
+        pool.append(obj)
+        prov.append(how)
+        printed.append(False)
+        prog.append(request)
+
+    for si, st in enumerate(case['steps']):
+        k = st['k']
+        kind = k
+        try:
+            if k == 'parse':
+                texts = [c['text'] for c in st['comps']]
+                cen = bool(st.get('centric'))
+                obj = SymmetryElement(texts, centric=True) if cen else SymmetryElement(texts)
+                add(obj, 'centric' if cen else 'parsed', dict(k='parse', s=texts, items=[c['items'] for c in st['comps']], centric=cen),
+                    f'SymmetryElement({texts!r}{", centric=True" if cen else ""})')
+            elif k == 'file':
+                shx = Shelxfile()
+                shx.read_string(symm_file_text(st['latt'], [ln['text'] for ln in st['lines']]))
+                for n, op in enumerate(list(shx.symmcards)):
+                    ex = observe_exact(op)
+                    if ex is None:
+                        trouble.append(dict(kind='unreadable', step=si, what=f'symmcards[{n}] of LATT {st["latt"]} + '
+                                            f'{[ln["text"] for ln in st["lines"]]} has matrix/translation {observe_op(op)}'))
+                        continue
+                    add(op, 'file', dict(k='given', rows=[dict(m=ex[0][i], t=frac_json(ex[1][i])) for i in range(3)]),
+                        f'symmcards[{n}] of a file with LATT {st["latt"]} and {[ln["text"] for ln in st["lines"]]}')
+            elif pool:
+                i = st['i'] % len(pool)
+                if k == 'latt':
+                    j = st['j'] % len(pool)
+                    obj = pool[i].apply_latt_symm(pool[j])
+                    add(obj, f'latt({short_prov(prov[i])})' + ('+printed' if printed[i] else ''), dict(k='latt', i=i, j=j),
+                        f'o{i}.apply_latt_symm(o{j})')
+                elif k == 'reparse':
+                    obj = SymmetryElement(pool[i].to_shelxl().split(','))
+                    src_printed = printed[i]
+                    printed[i] = True
+                    add(obj, f'reparse({short_prov(prov[i])})' + ('+printed' if src_printed else ''), dict(k='reparse', i=i),
+                        f"SymmetryElement(o{i}.to_shelxl().split(','))")
+                else:
+                    how = st['how']
+                    kind = 'observe:' + how
+                    if how == 'to_shelxl':
+                        pool[i].to_shelxl()
+                        printed[i] = True
+                        text.append(f'o{i}.to_shelxl()')
+                    elif how == 'repr':
+                        repr(pool[i])
+                        printed[i] = True
+                        text.append(f'repr(o{i})')
+                    elif how == 'str':
+                        str(pool[i])
+                        text.append(f'str(o{i})')
+                    elif how == 'to_cif':
+                        pool[i].to_cif()
+                        text.append(f'o{i}.to_cif()')
+                    else:
+                        j = st.get('j', 0) % len(pool)
+                        pool[i] == pool[j]  # noqa
+                        pool[i] != pool[j]  # noqa
+                        text.append(f'o{i} == o{j}; o{i} != o{j}')
+                    prog.append(dict(k='observe', i=i))
+        except Exception as e:  # noqa
+            trouble.append(dict(kind='raise', step=si, k=kind, what=f'step {si} ({kind}) raises {type(e).__name__}: {e}'))
+            break  # what follows has no meaning without this object
+        kinds.append(kind)
+        timeline.append([observe_fast(o) for o in pool])
+    # the end of every history: each object through print -> parse, and every pair compared
+    final = []
+    for o in pool:
+        rec = dict(printed=None)
+        try:
+            rec['printed'] = o.to_shelxl()
+            back = SymmetryElement(rec['printed'].split(','))
+            rec.update(back=observe_op(back), eq1=safe(lambda: bool(back == o)), eq2=safe(lambda: bool(o == back)),
+                       ne=safe(lambda: bool(back != o)))
+        except Exception as e:  # noqa
+            rec['raise'] = type(e).__name__
+        final.append(rec)
+    eqm = [[safe(lambda: bool(a == b)) for b in pool] for a in pool]
+    nem = [[safe(lambda: bool(a != b)) if ia <= ib else None for ib, b in enumerate(pool)] for ia, a in enumerate(pool)]
+    after = [observe_fast(o) for o in pool]
+    return dict(n=len(pool), prov=prov, prog=prog, text=text, trouble=trouble, timeline=timeline, kinds=kinds, final=final,
+                eqm=eqm, nem=nem, after=after)
+
+
+def rows_match(obs, rows):
+    m, t = obs
+    return all(row_matches(m[i], t[i], rows[i]['m'], float(rows[i]['t'])) for i in range(3))
+
+
+def hist_collect(ctx, cases):
+    """for every history: the list of (signature, what, payload, kind) of everything that is not as the property says"""
+    runs = [run_history(c) for c in cases]
+    ans = ctx.driver.batch([dict(p='C10', op='hist', steps=h['prog']) for h in runs])
+    out = []
+    texts = []      # (case index, object index) -> request index of the model's reading of the printed text
+    reqs = []
+    for ci, (case, h, r) in enumerate(zip(cases, runs, ans)):
+        fails = []
+        out.append(fails)
+        if not (r['in_grammar'] and r['spec']['ok']):
+            raise core.LeanError(f'harness error: generated history outside the grammar: {h["prog"]} -> {r}')
+        spec = r['spec']['pool']
+        if not r['model']['ok'] or r['model']['pool'] != spec:
+            raise core.LeanError(f'model and specification differ inside the hypotheses of history_refines: {h["prog"]} -> {r}')
+        n = h['n']
+        base = dict(case=case, stream='hist', history=h['text'])
+        show = lambda k: [[row['m'], str(row['t'])] for row in spec[k]]
+        for t in h['trouble']:
+            if t['kind'] == 'raise':
+                fails.append((f'C10|hist|raise|{t["k"]}', t['what'] + ' in the history ' + '; '.join(h['text']),
+                              dict(base, actual=t['what']), 'property'))
+            else:
+                fails.append(('C10|hist|file|unreadable-operator', t['what'], dict(base, actual=t['what']), 'property'))
+        # 1. every object is, and stays, the operator it has to be
+        bad = set()
+        snaps = list(zip(h['kinds'], h['timeline'])) + [('final-observation', h['after'])]
+        verified = {}
+        for si, (kind, snapshot) in enumerate(snaps):
+            for k, obs in enumerate(snapshot):
+                if k in bad or verified.get(k) == obs:
+                    continue
+                if rows_match(obs, spec[k]):
+                    verified[k] = obs
+                    continue
+                bad.add(k)
+                fresh = k >= (len(snaps[si - 1][1]) if si else 0)
+                if fresh:
+                    fails.append((f'C10|hist|value|{h["prov"][k]}', f'o{k} is {obs}, '
+                                  f'has to be {show(k)}; history: ' + '; '.join(h['text']),
+                                  dict(base, object=k, expected=show(k), actual=obs, model=str(r['model']['pool'][k])), 'property'))
+                else:
+                    fails.append((f'C10|hist|changed|{h["prov"][k]}|by={kind}', f'o{k} was {show(k)} and is {obs} after step {si} ({kind}); '
+                                  f'history: ' + '; '.join(h['text']),
+                                  dict(base, object=k, expected=show(k), actual=obs, model=str(r['model']['pool'][k])), 'property'))
+        # 2. print -> parse gives the same operator
+        for k, rec in enumerate(h['final']):
+            if k in bad:
+                continue
+            if 'raise' in rec or 'back' not in rec:
+                fails.append((f'C10|hist|roundtrip|{h["prov"][k]}|raise', f'o{k} printed as {rec["printed"]!r} cannot be parsed back '
+                              f'({rec.get("raise")}); history: ' + '; '.join(h['text']), dict(base, object=k, expected=show(k),
+                                                                                              actual=f'raise {rec.get("raise")}'), 'property'))
+                continue
+            same = rows_match(rec['back'], spec[k])
+            if not same or rec['eq1'] is not True or rec['eq2'] is not True or rec['ne'] is not False:
+                why = 'differs' if not same else 'not=='
+                fails.append((f'C10|hist|roundtrip|{h["prov"][k]}|{why}',
+                              f'o{k} = {show(k)} printed as {rec["printed"]!r} parses back to {rec["back"]}; parsed == o{k}: {rec["eq1"]}, '
+                              f'o{k} == parsed: {rec["eq2"]}, parsed != o{k}: {rec["ne"]}; history: ' + '; '.join(h['text']),
+                              dict(base, object=k, expected=show(k), actual=dict(printed=rec['printed'], back=rec['back'], eq=[rec['eq1'], rec['eq2']],
+                                                                                 ne=rec['ne'])), 'property'))
+                continue
+            pieces = rec['printed'].split(',')
+            if set(rec['printed']) - MODEL_ALPHABET:
+                # e.g. '-1.1102230246251565e-16+X' (float noise of a sum, or |t| < 1e-4): str(float) in exponent notation is
+                # outside the alphabet on which float() is modelled; the implementation's own round trip was checked above
+                continue
+            texts.append((ci, k, len(reqs), len(pieces)))
+            reqs += [dict(p='C10', op='parse', s=piece) for piece in pieces]
+        # 3. every pair compares as the lattice rule says
+        seen = set()
+        maxden = [max(row['t'].denominator for row in op) for op in spec]
+        for a in range(n):
+            for b in range(n):
+                if a in bad or b in bad:
+                    continue
+                if maxden[a] * maxden[b] > EQ_DEN_LIMIT and \
+                        any((x['t'] - y['t']).denominator > EQ_DEN_LIMIT for x, y in zip(spec[a], spec[b])):
+                    continue
+                want = r['spec']['eq'][a][b]
+                if want != r['model']['eq'][a][b]:
+                    raise core.LeanError(f'eqModel and LatticeEq differ inside the hypotheses: {spec[a]} {spec[b]}')
+                got, gotne = h['eqm'][a][b], h['nem'][a][b]      # `!=` is asked for a <= b only
+                if got == want and gotne in (None, not want):
+                    continue
+                sig = f'C10|hist|eq|must-{"equal" if want else "differ"}|{h["prov"][a]}~{h["prov"][b]}' + ('' if got != want else '|ne')
+                if sig in seen:
+                    continue
+                seen.add(sig)
+                fails.append((sig, f'o{a} == o{b} gives {got}, o{a} != o{b} gives {gotne}; o{a} = {show(a)}, o{b} = {show(b)}: '
+                              f'must be {"equal" if want else "different"}; history: ' + '; '.join(h['text']),
+                              dict(base, objects=[a, b], expected=want, actual=dict(eq=got, ne=gotne), model=r['model']['eq'][a][b]), 'property'))
+    # correspondence: the model's parser reads the text the implementation printed as the same operator
+    back = ctx.driver.batch(reqs) if reqs else []
+    for ci, k, at, npieces in texts:
+        spec = ans[ci]['spec']['pool']
+        got = back[at:at + npieces]
+        ok = npieces == 3 and all(b['model']['ok'] and row_matches(b['model']['m'], float(b['model']['t']), spec[k][i]['m'], float(spec[k][i]['t']))
+                                  for i, b in enumerate(got))
+        if not ok:
+            h = runs[ci]
+            out[ci].append((f'C10|hist|roundtrip|{h["prov"][k]}|model-parse',
+                            f'the model does not read the printed text {h["final"][k]["printed"]!r} of o{k} as {spec[k]}',
+                            dict(case=cases[ci], stream='hist', history=h['text'], object=k, actual=h['final'][k]['printed'], model=str(got)),
+                            'correspondence'))
+    return out
+
+
+def shrink_hist(ctx, case, sig, limit=60):
+    """drops steps while the same signature keeps failing (indices are taken modulo the pool size, so every sub-history is one)"""
+    steps = list(case['steps'])
+    trials = 0
+    i = len(steps) - 1
+    while i >= 0 and trials < limit and len(steps) > 1:
+        cand = steps[:i] + steps[i + 1:]
+        trials += 1
+        try:
+            got = hist_collect(ctx, [dict(case, steps=cand)])[0]
+        except core.LeanError:
+            got = []
+        if any(f[0] == sig for f in got):
+            steps = cand
+        i -= 1
+    return dict(case, steps=steps)
+
+
+def hist_tags(case):
+    tags = {'hist', 'hist-' + case.get('family', 'replay')}
+    for st in case['steps']:
+        tags.add('hist-step=' + (st['k'] if st['k'] != 'observe' else 'observe:' + st['how']))
+        if st['k'] == 'file':
+            tags.add(f'hist-file-latt={st["latt"]}')
+        if st['k'] == 'parse' and st.get('centric'):
+            tags.add('hist-centric')
+    if 'latt' in case:
+        tags.add(f'hist-latt={case["latt"]}')
+    return sorted(tags)
+
+
+def eval_hist(ctx, cases):
+    ctx.stream('hist')
+    reported = set()
+    for at in range(0, len(cases), 500):
+        chunk = cases[at:at + 500]
+        for case, fails in zip(chunk, hist_collect(ctx, chunk)):
+            key = [[st['k'], st.get('centric'), [c['text'] for c in st.get('comps', [])], st.get('latt'), [ln['text'] for ln in st.get('lines', [])],
+                    st.get('i'), st.get('j'), st.get('how')] for st in case['steps']]
+            ctx.count(['hist', key], nontrivial=any(st['k'] in ('latt', 'file') or st.get('centric') for st in case['steps']),
+                      tags=hist_tags(case), sample=dict(stream='hist', steps=[st['k'] for st in case['steps']]))
+            for sig, what, payload, kind in fails:
+                if sig not in reported and sig not in ctx.known:
+                    reported.add(sig)
+                    small = shrink_hist(ctx, case, sig)
+                    if small['steps'] != case['steps']:
+                        again = [f for f in hist_collect(ctx, [small])[0] if f[0] == sig]
+                        if again:
+                            sig, what, payload, kind = again[0]
+                ctx.fail(sig, what, payload, kind)
+
+
+# ------------------------------------------------------------------------------------------------
 # generation
 
 def comp_of(rng, items, mode):
@@ -523,14 +854,26 @@ def run(ctx):
                 'non-trivial = more than one item (parse), non-zero translation (roundtrip), equal matrices with different translations (eq); '
                 'eq pairs: one-component differences k1/12 vs k2/12 and k/8 exhaustively, every difference VECTOR on the twelfths and eighths '
                 'grids in [-1,1]^3 (several components at once, all sign combinations, cancelling sums) plus whole-number shifts, random mixed '
-                'denominators; both directions a == b and b == a')
+                'denominators; both directions a == b and b == a; histories on operator objects: 6 hand-written + random sources x '
+                'centric x LATT 2..7 (every centring vector) x {nothing, to_shelxl, repr, str, to_cif, ==} before the copies are made, with '
+                'copies of copies, whole-number shifts, re-parsed texts and a copy made after everything was printed; the `symmcards` of '
+                'files with LATT +-1..7 and 0-2 SYMM lines followed by random calls; random histories of parse(centric)/apply_latt_symm/'
+                're-parse/observe steps; distinct by the step list; non-trivial = has a derived, centric or file-made object')
     ctx.assumptions = ['translations compared at 1e-12 against the exact rational (the code computes float(n)/float(d))',
                        'eq: translations are multiples of 1/N with N <= 1e9 (hypothesis of eq_iff_mod_lattice for the tolerance 1e-9)',
-                       'alphabet of the grammar only (hypothesis under which float()/eval are modelled)']
+                       'alphabet of the grammar only (hypothesis under which float()/eval are modelled); texts with exponent notation '
+                       '(float noise of summed translations) are checked on the implementation only',
+                       'hist: pairs whose exact translation difference has a denominator > 1e8 are not compared (same hypothesis)',
+                       'hist: operators taken from symmcards are taken as given (which operators a file yields is C11)']
     thorough = ctx.tier == 'thorough' or ctx.escalated
     table = list(bounded_grammar())
     ctx.extra['bounded_grammar_components'] = len(table)
     ctx.exhaustive = True
+    # histories on operator objects: the systematic ones before everything else (every source x centric x lattice x
+    # observation made before the copies are derived; the operators every lattice type leaves in `symmcards`), the
+    # random ones at the end
+    hist_systematic, hist_random = hist_cases(ctx, table)
+    evaluate(ctx, hist_systematic)
     modes = ['canonical', 'both'] + (['blanks', 'lower', 'both'] if thorough else [])
     comps = []
     for mode in modes:
@@ -622,3 +965,164 @@ def run(ctx):
         eqs.append(eq_case_diff(rng, diffs, max(den, 2) if den <= 600 else 12, same_matrix=rng.random() < 0.85))
     for i in range(0, len(eqs), 10000):
         evaluate(ctx, eqs[i:i + 10000])
+
+    evaluate(ctx, hist_random)
+
+
+# ------------------------------------------------------------------------------------------------
+# generation of histories
+
+def T(a, sg=''):
+    return dict(k='t', s=sg, a=a)
+
+
+def NUM(num, sg=''):
+    return dict(k='n', s=sg, num=num)
+
+
+# operators written out by hand (items): identity, 2_1 screw, 3_1 screw, CIF-like spellings, negative translations
+HIST_SOURCES = [
+    [[T('x')], [T('y')], [T('z')]],
+    [[T('x', '-')], [NUM(frac(1, 2)), T('y', '+')], [NUM(frac(1, 2)), T('z', '-')]],
+    [[T('y', '-')], [T('x'), T('y', '-')], [NUM(frac(1, 3)), T('z', '+')]],
+    [[NUM(frac(1, 4)), T('x', '-')], [NUM(frac(3, 4)), T('y', '+')], [T('z'), NUM(dec('0.25'), '+')]],
+    [[T('x', '-'), T('y', '+')], [T('x', '-')], [T('z'), NUM(frac(2, 3), '+')]],
+    [[NUM(dec('0.5')), T('z', '+')], [T('x', '-'), NUM(frac(5, 6), '-')], [T('y')]],
+]
+
+# the centring vectors of the SHELXL lattice types (LATT N, International Tables), independent of the code's table
+CENTRINGS = {2: [(Fraction(1, 2), Fraction(1, 2), Fraction(1, 2))],
+             3: [(Fraction(2, 3), Fraction(1, 3), Fraction(1, 3)), (Fraction(1, 3), Fraction(2, 3), Fraction(2, 3))],
+             4: [(Fraction(0), Fraction(1, 2), Fraction(1, 2)), (Fraction(1, 2), Fraction(0), Fraction(1, 2)),
+                 (Fraction(1, 2), Fraction(1, 2), Fraction(0))],
+             5: [(Fraction(0), Fraction(1, 2), Fraction(1, 2))],
+             6: [(Fraction(1, 2), Fraction(0), Fraction(1, 2))],
+             7: [(Fraction(1, 2), Fraction(1, 2), Fraction(0))]}
+
+
+def vector_items(rng, v):
+    """a pure translation written as three components: fractions, or decimals where they are exact"""
+    out = []
+    for q in v:
+        q = Fraction(q)
+        sg = '-' if q < 0 else ''
+        a = abs(q)
+        if a.denominator == 1:
+            num = dec(rng.choice([str(a.numerator), f'{a.numerator}.0']))
+        elif finite_decimal(a) and rng.random() < 0.5:
+            num = dec(repr(float(a)))
+        else:
+            num = frac(a.numerator, a.denominator)
+        out.append([NUM(num, sg)])
+    return out
+
+
+def respell(items):
+    """the same component written in another order (the first item moved to the end, e.g. '1/2+Y' -> '+Y+1/2')"""
+    if len(items) < 2:
+        return [dict(it, s=it['s'] or '+') for it in items]
+    out = [dict(it) for it in items[1:] + items[:1]]
+    for it in out[1:]:
+        it['s'] = it['s'] or '+'
+    return out
+
+
+def parse_step(rng, triple, centric=False, mode='canonical'):
+    return dict(k='parse', centric=centric, comps=[comp_of(rng, items, mode) for items in triple])
+
+
+def systematic_history(rng, source, centric, latt, pre):
+    """parse -> [observe] -> centred copies with every vector of the lattice -> print a copy -> copy of the copy ->
+    whole-number shift -> re-parsed texts -> the first copy once more after everything has been printed"""
+    vs = CENTRINGS[latt]
+    nv = len(vs)
+    steps = [parse_step(rng, source, centric, rng.choice(['canonical', 'both']))]
+    steps += [parse_step(rng, vector_items(rng, v)) for v in vs]
+    steps.append(parse_step(rng, vector_items(rng, (1, -2, 3))))
+    if pre:
+        steps.append(dict(k='observe', i=0, how=pre, j=1))
+    steps += [dict(k='latt', i=0, j=j) for j in range(1, nv + 1)]          # objects nv+2 .. 2nv+1
+    steps.append(dict(k='observe', i=nv + 2, how='repr'))
+    steps.append(dict(k='latt', i=nv + 2, j=1))                             # the first vector twice
+    steps.append(dict(k='latt', i=0, j=nv + 1))                             # moved by whole numbers: still the same operator
+    steps.append(dict(k='reparse', i=0))
+    steps.append(dict(k='reparse', i=nv + 2))
+    steps.append(dict(k='latt', i=0, j=1))                                  # after everything has been printed
+    steps.append(dict(k='latt', i=nv + 2, j=nv))
+    # the source once more, spelled differently (other item order, blanks, case): another object, the same operator
+    steps.append(parse_step(rng, [respell(c) for c in source], centric, 'both'))
+    return dict(stream='hist', family='sys', latt=latt, steps=steps)
+
+
+def file_step(rng, latt, nice, nlines):
+    lines = []
+    for _ in range(nlines):
+        cs = [comp_of(rng, rng.choice(nice), 'canonical') for _ in range(3)]
+        lines.append(dict(text='SYMM ' + ', '.join(c['text'] for c in cs), comps=cs))
+    return dict(k='file', latt=latt, lines=lines)
+
+
+def random_steps(rng, n):
+    steps = []
+    for _ in range(n):
+        r = rng.random()
+        if r < 0.45:
+            steps.append(dict(k='latt', i=rng.randrange(100), j=rng.randrange(100)))
+        elif r < 0.6:
+            steps.append(dict(k='reparse', i=rng.randrange(100)))
+        else:
+            steps.append(dict(k='observe', i=rng.randrange(100), how=rng.choice(OBSERVATIONS), j=rng.randrange(100)))
+    return steps
+
+
+def file_history(rng, latt, nice, nlines):
+    """the operators a file leaves in `symmcards` (any lattice, centric or not), then calls on them"""
+    return dict(stream='hist', family='file', latt=abs(latt), steps=[file_step(rng, latt, nice, nlines)] + random_steps(rng, rng.randint(2, 6)))
+
+
+def random_operator(rng, nice):
+    r = rng.random()
+    if r < 0.5:
+        return [rng.choice(nice) for _ in range(3)]
+    if r < 0.65:
+        return rng.choice(HIST_SOURCES)
+    if r < 0.85:
+        latt = rng.choice(sorted(CENTRINGS))
+        return vector_items(rng, rng.choice(CENTRINGS[latt]))
+    if r < 0.9:
+        return vector_items(rng, [rng.randint(-3, 3) for _ in range(3)])
+    return [random_component(rng) for _ in range(3)]
+
+
+def random_history(rng, nice):
+    steps = []
+    if rng.random() < 0.1:
+        steps.append(file_step(rng, rng.choice([1, -1, 2, -2, 3, -3, 5, -7]), nice, rng.randint(0, 1)))
+    for _ in range(rng.randint(1, 3)):
+        steps.append(parse_step(rng, random_operator(rng, nice), rng.random() < 0.3, rng.choice(['canonical', 'canonical', 'both'])))
+    for st in random_steps(rng, rng.randint(3, 10)):
+        steps.append(st)
+        if rng.random() < 0.12:
+            steps.append(parse_step(rng, random_operator(rng, nice), rng.random() < 0.3))
+    return dict(stream='hist', family='random', steps=steps)
+
+
+def hist_cases(ctx, table):
+    rng = ctx.rng
+    nice = [items for items in table if len(items) >= 2]
+    cases = []
+    sources = HIST_SOURCES + [[rng.choice(nice) for _ in range(3)] for _ in range(ctx.budget(1, 20))]
+    for source in sources:
+        for centric in (False, True):
+            for latt in sorted(CENTRINGS):
+                for pre in (None,) + OBSERVATIONS:
+                    cases.append(systematic_history(rng, source, centric, latt, pre))
+    for latt in (1, -1, 2, -2, 3, -3, 4, -4, 5, -5, 6, -6, 7, -7):
+        for nlines in (0, 1, 2):
+            cases.append(file_history(rng, latt, nice, nlines))
+    more = []
+    for _ in range(ctx.budget(60, 1500)):
+        more.append(file_history(rng, rng.choice([1, -1, 2, -2, 3, -3, 4, -4, 5, -5, 6, -6, 7, -7]), nice, rng.randint(0, 2)))
+    for _ in range(ctx.budget(1200, 20000)):
+        more.append(random_history(rng, nice))
+    return cases, more
